@@ -34,6 +34,10 @@ TREE = {
                '#ifdef PRE2_SRC\ncbi_m_a_12;\n#endif\n#ifdef PRE2_INC\ncbi_m_a_15;\n#endif\n',
     # `-include pre2.h`: a compiler looks in its working directory and then along the search path -- never beside the
     # source file, where a decoy of the same name sits
+    # the same directory NAME below the root and below the build directory, with different contents
+    "src/e.c": "#include <cx.h>\ncbi_m_e_2;\n#ifdef CX_BUILD\ncbi_m_e_4;\n#endif\n#ifdef CX_ROOT\ncbi_m_e_7;\n#endif\n",
+    "incx/cx.h": "#define CX_ROOT 1\ncbi_m_cxr_2;\n",
+    "build/incx/cx.h": "#define CX_BUILD 1\ncbi_m_cxb_2;\n",
     "src/pre2.h": "#define PRE2_SRC 1\ncbi_m_p2s_2;\n",
     "inc/pre2.h": "#define PRE2_INC 1\ncbi_m_p2i_2;\n",
     # needs a search directory whose name contains a blank; tests the macro of a forced include
@@ -54,7 +58,7 @@ TREE = {
     "gpu/notes.md": "# notes\n",
     "build/gen.txt": "x\n",
 }
-DIRS = ["src", "src/sub", "inc", "inc2", "other", "build", "build/deep", "build/a", "build/b", "my inc", "cfg", "gpu"]
+DIRS = ["src", "src/sub", "inc", "inc2", "other", "build", "build/deep", "build/a", "build/b", "my inc", "cfg", "gpu", "incx", "build/incx"]
 
 
 def bounds(tier):
@@ -71,7 +75,8 @@ def required_cells(tier):
         cells.append("inc:" + i)
     cells += ["wd:root", "wd:build-inside", "wd:build-outside", "skip:missing/first", "skip:missing/middle", "skip:missing/last",
               "skip:object", "skip:link", "skip:empty-command", "skip:empty-arguments", "skip:blank-command", "relative-I-missing-in-build-dir", "unnamed-file-unattributed",
-              "gcc-confirmed", "class:grid", "class:random", "same-spelling-different-build-dirs", "same-file-spelling-missing-in-one-directory", "forced-include-by-name:search-path-not-source-directory", "dotdot-after-directory-link:file", "dotdot-after-directory-link:inc",
+              "gcc-confirmed", "class:grid", "class:random", "same-spelling-different-build-dirs", "same-file-spelling-missing-in-one-directory", "forced-include-by-name:search-path-not-source-directory", "relative-I-also-exists-below-process-cwd:cwd=root",
+              "relative-I-also-exists-below-process-cwd:cwd=build", "directory-is-file-system-root", "dotdot-after-directory-link:file", "dotdot-after-directory-link:inc",
               "dotdot-after-directory-link:dir", "dotdot-after-directory-link:pre", "dotdot-after-directory-link:all", "forced-include:rel",
               "forced-include:abs", "forced-include:dots", "search-dir-with-blank:command", "search-dir-with-blank:arguments",
               "header-compiled-on-its-own", "compiled-files-excluded-by-pattern", "skip:missing-long-name", "skip:missing-below-a-file",
@@ -466,6 +471,52 @@ def run_shard(ctx):
         e, m = make_entry(root, base, "src/a.c", wd_kind, "abs", fstyle, "rel", form=form, extra=("-include", "pre2.h"))
         ctx.acc.cells["forced-include-by-name:search-path-not-source-directory"] += 1
         check_db(ctx, base, root, [e], [m], [], "grid")
+    # a relative -I whose name also exists below the PROCESS working directory (the root), where it is additionally
+    # named by -isystem with its absolute path: for the compiler, running in build/, these are two directories
+    for cwd_kind, form, order in itertools.product(["root", "build", "elsewhere"], ["arguments", "command"], [0, 1]):
+        idx += 1
+        if not ctx.mine(idx):
+            continue
+        wd = os.path.join(root, "build")
+        srcp = os.path.join(root, "src", "e.c")
+        opts = ["-I", "incx", "-isystem", os.path.join(root, "incx")]
+        if order:
+            opts = ["-isystem" + os.path.join(root, "incx"), "-Iincx"]
+        argv = ["gcc"] + opts + ["-c", "../src/e.c"]
+        e = {"file": "../src/e.c", "directory": wd}
+        if form == "arguments":
+            e["arguments"] = argv
+        else:
+            import shlex
+            e["command"] = shlex.join(argv)
+        m = {"src": "src/e.c", "wd": wd, "wd_kind": "build-inside", "dstyle": "abs", "fstyle": "rel", "istyle": "rel", "argv": argv, "defines": [],
+             "want_inc": [os.path.join(wd, "incx"), os.path.join(root, "incx")], "pre": None}
+        old = os.getcwd()
+        os.chdir({"root": root, "build": wd, "elsewhere": base}[cwd_kind])
+        try:
+            ctx.acc.cells["relative-I-also-exists-below-process-cwd:cwd=" + cwd_kind] += 1
+            check_db(ctx, base, root, [e], [m], [], "grid")
+        finally:
+            os.chdir(old)
+    # an entry whose directory is the file-system root
+    for form, fstyle in itertools.product(["arguments", "command"], ["rel", "abs"]):
+        idx += 1
+        if not ctx.mine(idx):
+            continue
+        for dirsp in ("/", "//", "/./"):
+            srcp = os.path.join(root, "src", "a.c")
+            fsp = os.path.relpath(srcp, "/") if fstyle == "rel" else srcp
+            argv = ["gcc", "-I", os.path.relpath(os.path.join(root, "inc"), "/"), "-I" + os.path.join(root, "inc2"), "-c", fsp]
+            e = {"file": fsp, "directory": dirsp}
+            if form == "arguments":
+                e["arguments"] = argv
+            else:
+                import shlex
+                e["command"] = shlex.join(argv)
+            m = {"src": "src/a.c", "wd": "/", "wd_kind": "build-outside", "dstyle": "abs", "fstyle": fstyle, "istyle": "rel", "argv": argv, "defines": [],
+                 "want_inc": [os.path.join(root, "inc"), os.path.join(root, "inc2")], "pre": None}
+            ctx.acc.cells["directory-is-file-system-root"] += 1
+            check_db(ctx, base, root, [e], [m], [], "grid")
     # one `file` spelling in two build directories: missing in the first (generated later), present in the second.
     # The warning about the first must not cost the second its place in the configuration (either order, twice each).
     for order in (0, 1, 2):
